@@ -11,6 +11,7 @@ import (
 	"codeberg.org/TauCeti/mangle-go/ast"
 	"codeberg.org/TauCeti/mangle-go/engine"
 	"codeberg.org/TauCeti/mangle-go/factstore"
+	"codeberg.org/TauCeti/mangle-go/functional"
 	"codeberg.org/TauCeti/mangle-go/parse"
 
 	"verifmc/oracle"
@@ -147,6 +148,17 @@ func ParseAtoms(facts []string) ([]ast.Atom, error) {
 		a, err := parse.Atom(f)
 		if err != nil {
 			return nil, fmt.Errorf("atom %q: %w", f, err)
+		}
+		// constructor expressions ([1, 2], fn:pair(1, 2), {/a: 1}) are evaluated to constants
+		for i, arg := range a.Args {
+			if _, isFn := arg.(ast.ApplyFn); isFn {
+				v, err := functional.EvalExpr(arg, nil)
+				if err != nil {
+					return nil, fmt.Errorf("atom %q: %w", f, err)
+				}
+				a.Args = append([]ast.BaseTerm{}, a.Args...)
+				a.Args[i] = v
+			}
 		}
 		out = append(out, a)
 	}
